@@ -256,12 +256,12 @@ def generate(tier, rng):
         nf = 1 + rep % 4
         shapes, ident = [], {}
         for k in range(nf):
-            if rep % 3 == 0 and k == rep % nf:
+            if rep % 2 == 0 and k == rep % nf:
                 shapes.append(None)
                 ident[k] = rng.randint(1, 3)
             else:
                 shapes.append([rng.randint(1, 3), rng.randint(1, 3)])
-        trailing = [[], [2], [2, 3]][rep % 3]
+        trailing = [[], [2], [2, 3]][(rep // 2) % 3]       # independent of the placeholder pattern: None together with trailing axes occurs
         yield 'tprod', {'seed': rep, 'shapes': shapes, 'ident': {int(k): int(v) for k, v in ident.items()}, 'kinds': [['dense', 'sparse'][(rep + k) % 2] for k in range(nf)], 'trailing': trailing}
     lay = ['dense', 'sparse', 'linop', 'none', 'null']
     for rep in range(30 if quick else 200):
